@@ -3,10 +3,15 @@ package registry
 import (
 	"context"
 	"fmt"
+	"sync"
 
 	"github.com/thushan/olla/internal/core/domain"
 	"github.com/thushan/olla/internal/zzverif/gosym"
 )
+
+// zzNoProbe: the concurrent job compares with the mentioned names only (the symbolic probe name is
+// the sequential jobs' business)
+var zzNoProbe = false
 
 var zzEPs = []string{"http://e1:11434", "http://e2:11434", "http://e3:11434"}
 
@@ -106,8 +111,10 @@ func zzRegistryCompare(r *MemoryModelRegistry, ref map[string][]string, mentione
 			gosym.Assert(c, label)
 		}
 	}
-	probe := gosym.String("probe", 1)
-	names := append(append([]string{}, mentioned...), probe)
+	names := append([]string{}, mentioned...)
+	if !zzNoProbe {
+		names = append(names, gosym.String("probe", 1))
+	}
 	// per-endpoint listing
 	for i := 0; i < E; i++ {
 		e := zzEPs[i]
@@ -178,4 +185,101 @@ func zzRegistryCompare(r *MemoryModelRegistry, ref map[string][]string, mentione
 func zzKeptEmpty(r *MemoryModelRegistry, e string) bool {
 	_, ok := r.endpointModels.Load(e)
 	return ok
+}
+
+// VerifRegistryConcurrent: two writers (replace listing / remove endpoint) run concurrently on the
+// registry, on the same or on different endpoints, under every interleaving of their
+// synchronisation steps; once both have returned, every view of the catalogue equals the reference
+// for one of the two serial orders (for different endpoints both orders give the same reference).
+func VerifRegistryConcurrent() {
+	ctx := context.Background()
+	zzNoProbe = true
+	r := NewMemoryModelRegistry(zzLog{})
+	names := []string{"a", "B"}
+	type op struct {
+		e      string
+		remove bool
+		list   []string
+	}
+	mk := func(tag string) op {
+		o := op{e: zzEPs[gosym.Choice("endpoint", 2)]}
+		if gosym.Choice("remove", 2) == 1 {
+			o.remove = true
+			return o
+		}
+		k := gosym.Choice("len", 3)
+		for i := 0; i < k; i++ {
+			o.list = append(o.list, names[gosym.Choice("name", 2)])
+		}
+		return o
+	}
+	// a reachable start state: both endpoints list "a"
+	for _, e := range zzEPs[:2] {
+		gosym.Assert(r.RegisterModels(ctx, e, []*domain.ModelInfo{{Name: "a"}}) == nil, "initial listing accepted")
+	}
+	var ops []op
+	if gosym.Param("FIXOPS") == 1 {
+		ops = []op{{e: zzEPs[0], list: []string{"a", "B"}}, {e: zzEPs[0], list: []string{"B"}}}
+	} else {
+		ops = []op{mk("w0"), mk("w1")}
+	}
+	run := func(o op) {
+		if o.remove {
+			r.RemoveEndpoint(ctx, o.e)
+			return
+		}
+		var l []*domain.ModelInfo
+		for _, n := range o.list {
+			l = append(l, &domain.ModelInfo{Name: n})
+		}
+		r.RegisterModels(ctx, o.e, l)
+	}
+	var wg sync.WaitGroup
+	wg.Add(2)
+	for g := 0; g < 2; g++ {
+		g := g
+		go func() {
+			defer wg.Done()
+			run(ops[g])
+		}()
+	}
+	wg.Wait()
+	apply := func(ref map[string][]string, o op) {
+		if o.remove || len(o.list) == 0 {
+			delete(ref, o.e)
+			return
+		}
+		ref[o.e] = o.list
+	}
+	refs := []map[string][]string{}
+	for _, order := range [][2]int{{0, 1}, {1, 0}} {
+		ref := map[string][]string{zzEPs[0]: {"a"}, zzEPs[1]: {"a"}}
+		apply(ref, ops[order[0]])
+		apply(ref, ops[order[1]])
+		refs = append(refs, ref)
+	}
+	// which serial order does the per-endpoint listing of the contended endpoint match?
+	matches := func(ref map[string][]string) bool {
+		for _, e := range zzEPs[:2] {
+			got, _ := r.GetModelsForEndpoint(ctx, e)
+			if len(got) != len(ref[e]) {
+				return false
+			}
+			for i := range got {
+				if got[i].Name != ref[e][i] {
+					return false
+				}
+			}
+		}
+		return true
+	}
+	switch {
+	case matches(refs[0]):
+		zzRegistryCompare(r, refs[0], []string{"a", "B"}, 2, "", false)
+	case matches(refs[1]):
+		zzRegistryCompare(r, refs[1], []string{"a", "B"}, 2, "", false)
+	default:
+		gosym.Assert(false, "C10: after concurrent updates the per-endpoint listings equal those of one serial order")
+	}
+	gosym.Reach("end")
 }
